@@ -1312,8 +1312,16 @@ func genToolbox(rng *rand.Rand, kind int) *primShape {
 		lo := [3]int{p1[0] + 2, p1[1], p1[2]}
 		hi := [3]int{p1[0] + 3, p1[1] + 1, p1[2] + 4}
 		top := [3]int{p1[0], p1[1], p1[2] + 4}
-		return solidOnly3("toolbox3d.Ramp(axis outside the solid)", fmt.Sprintf("rect lo=%v hi=%v axis %v->%v", lo, hi, p1, top),
+		if rng.Intn(2) == 0 {
+			// an oblique axis whose tip lies beside the solid: the shrunken copies reach towards the tip
+			lo = [3]int{p1[0] + 2, p1[1] - 1, p1[2]}
+			hi = [3]int{p1[0] + 3, p1[1] + 1, p1[2] + 3}
+			top = [3]int{p1[0] + 3, p1[1], p1[2] + 3}
+		}
+		s := solidOnly3("toolbox3d.Ramp(axis outside the solid)", fmt.Sprintf("rect lo=%v hi=%v axis %v->%v", lo, hi, p1, top),
 			&toolbox3d.Ramp{Solid: model3d.NewRect(v3c(i3f(lo)), v3c(i3f(hi))), P1: P1, P2: v3c(i3f(top))})
+		s.extra = &[2]pvec{pvAdd(i3f(p1), pvec{-1, -2, -1}), pvAdd(i3f(hi), pvec{1, 1, 1})}
+		return s
 	}
 }
 
